@@ -421,6 +421,10 @@ func LockCheck(c *Ctx, funcs []*ssa.Function, rows []GuardRow, requires []LockRe
 				"%s: %s of %s.%s requires %s held for %s, lockset here is %s", FuncName(fn), a.How, a.Type, a.Field, mpath, modeName(need), li.HeldSet(a.Instr))
 		}
 	}
+	// read-modify-write of a guarded field happens inside one hold
+	for _, fn := range funcs {
+		lockRMW(c, fn, rowOf, req, ex)
+	}
 	// call sites of helpers that require a lock
 	for _, r := range requires {
 		fn := c.P.Func(r.Func)
@@ -604,4 +608,94 @@ func (p *Prog) isIfaceMethod(fn *ssa.Function) bool {
 		}
 	}
 	return p.ifaceMethodNames[fn.Name()]
+}
+
+// lockRMW: a store into a guarded slice/map/pointer field whose new value is
+// computed from the field's old value (append, re-slice, compaction) must read
+// that old value inside the same hold of the mutex as the store. An old value
+// obtained before the lock was taken — an earlier load, or a getter that takes
+// and releases the lock itself — is a stale snapshot: whatever another
+// goroutine stored in between is lost.
+func lockRMW(c *Ctx, fn *ssa.Function, rowOf map[string]GuardRow, req map[string][]LockRequire, ex map[string]string) {
+	want := func(t, f string) bool { _, ok := rowOf[t+"."+f]; return ok }
+	accs := FieldAccesses(fn, want)
+	if len(accs) == 0 {
+		return
+	}
+	entry := lockset{}
+	for _, r := range req[FuncName(fn)] {
+		entry[r.Mutex] = r.Mode
+	}
+	var li *LockInfo
+	top := fn
+	for top.Parent() != nil {
+		top = top.Parent()
+	}
+	for _, a := range accs {
+		st, isStore := a.Instr.(*ssa.Store)
+		if !isStore || a.How != "store" || FreshBase(a.Base) {
+			continue
+		}
+		if _, exempt := ex[FuncName(top)+"|"+a.Type]; exempt {
+			continue
+		}
+		if !isRefLike(st.Val.Type()) {
+			continue
+		}
+		row := rowOf[a.Type+"."+a.Field]
+		// origins of the stored value that are reads of the same field
+		var origins []ssa.Instruction
+		DerivesFrom(st.Val, func(v ssa.Value) bool {
+			u, ok := v.(*ssa.UnOp)
+			if !ok || u.Op != token.MUL {
+				return false
+			}
+			if IsFieldAddr(u.X, a.Type, a.Field) {
+				origins = append(origins, u)
+			}
+			return false
+		})
+		if len(origins) == 0 {
+			continue
+		}
+		if li == nil {
+			li = Locksets(fn, entry)
+		}
+		mpath := a.BasePath + "." + row.Mutex
+		for _, o := range origins {
+			bad := ""
+			switch {
+			case o.Parent() != fn:
+				bad = "the old value comes from " + FuncName(o.Parent()) + ", which reads it in a lock hold of its own"
+			case li.Held(o, mpath) < 2 && !heldByCallers(c.P, req, fn, a.BasePath, row.Mutex, 2, 2):
+				bad = "the old value is read at " + c.P.Fset.Position(o.Pos()).String() + " without the write lock"
+			default:
+				for _, u := range CallsIn(fn, nil) {
+					if _, isDefer := u.(*ssa.Defer); isDefer {
+						continue
+					}
+					n := CallName(u)
+					if (n == "(*sync.Mutex).Unlock" || n == "(*sync.RWMutex).Unlock") && AccessPath(Receiver(u)) == mpath {
+						ui := u.(ssa.Instruction)
+						if Dominates(o, ui) && Dominates(ui, st) {
+							bad = "the lock is released between the read and the store"
+						}
+					}
+				}
+			}
+			if bad == "" {
+				c.Site(st.Pos(), "%s: %s.%s is recomputed from a value read in the same hold of %s", FuncName(fn), a.Type, a.Field, mpath)
+			} else {
+				c.Violation(fmt.Sprintf("lock-rmw:%s:%s.%s", FuncName(fn), a.Type, a.Field), st.Pos(), "%s stores a new %s.%s computed from a stale snapshot (%s): an update made by another goroutine in between is overwritten", FuncName(fn), a.Type, a.Field, bad)
+			}
+		}
+	}
+}
+
+func isRefLike(t types.Type) bool {
+	switch t.Underlying().(type) {
+	case *types.Slice, *types.Map, *types.Pointer:
+		return true
+	}
+	return false
 }
